@@ -6,6 +6,8 @@ package main
 import (
 	"bytes"
 	"fmt"
+	"net"
+	"strings"
 	"sync"
 	"time"
 
@@ -661,4 +663,387 @@ func runInprocDialParkedAtClose(c *Ctx) {
 	}
 	_ = c1.Close()
 	go func() { _ = c2.Close() }()
+}
+
+// C16 — a peer that connects and then says nothing (no TLS hello, no WebSocket upgrade, no SP header) must not keep a
+// well-behaved peer out: every stream transport, a real listener, a raw silent connection, then a real dialer.
+func runSilentPeerDoesNotDelayOthers(c *Ctx) {
+	initTLS()
+	for _, tr := range e2eTransports {
+		if tr.name == "inproc" {
+			continue
+		}
+		rx, _ := pull.NewSocket()
+		tx, _ := push.NewSocket()
+		_ = rx.SetOption(mangos.OptionRecvDeadline, 2*time.Second)
+		_ = tx.SetOption(mangos.OptionSendDeadline, 2*time.Second)
+		lo, do := map[string]interface{}{}, map[string]interface{}{}
+		if tr.tls {
+			lo[mangos.OptionTLSConfig] = srvTLS
+			do[mangos.OptionTLSConfig] = cliTLS
+		}
+		l, err := rx.NewListener(r4addr(tr), lo)
+		if err != nil || l.Listen() != nil {
+			_ = rx.Close()
+			_ = tx.Close()
+			continue
+		}
+		addr := l.Address()
+		// the silent peer
+		var silent net.Conn
+		if tr.name == "ipc" {
+			silent, err = net.Dial("unix", strings.TrimPrefix(addr, "ipc://"))
+		} else {
+			hostport := addr[strings.Index(addr, "://")+3:]
+			if i := strings.Index(hostport, "/"); i >= 0 {
+				hostport = hostport[:i]
+			}
+			silent, err = net.Dial("tcp", hostport)
+		}
+		if err != nil {
+			_ = rx.Close()
+			_ = tx.Close()
+			continue
+		}
+		time.Sleep(50 * time.Millisecond)
+		class := "silent-peer-does-not-delay-others " + tr.name
+		c.Class(class, true)
+		res := make(chan error, 1)
+		go func() {
+			if e := tx.DialOptions(addr, do); e != nil {
+				res <- fmt.Errorf("dial: %v", e)
+				return
+			}
+			if e := tx.Send([]byte("after-the-silent-one")); e != nil {
+				res <- fmt.Errorf("send: %v", e)
+				return
+			}
+			_, e := rx.Recv()
+			res <- e
+		}()
+		select {
+		case e := <-res:
+			if e != nil {
+				c.Violate(fmt.Sprintf("%s: with one connection open that never says anything, a well-behaved peer could not get a message through: %v", tr.name, e),
+					map[string]interface{}{"transport": tr.name, "history": "listener; raw connection that stays silent; PUSH dials and sends; PULL receives"})
+			}
+		case <-time.After(4 * time.Second):
+			c.Violate(fmt.Sprintf("%s: a connection that never says anything kept a well-behaved peer out for more than 4 s", tr.name), map[string]interface{}{"transport": tr.name})
+		}
+		_ = silent.Close()
+		go func() { _ = rx.Close(); _ = tx.Close() }()
+	}
+}
+
+// C13 — hooks that take their time or close the pipe they are told about: the dialer still redials, the next connection
+// still attaches, Detached is still reported.
+func runHookEdgeCases(c *Ctx) {
+	tr := transportNamed("inproc")
+	// (a) the Attaching hook closes the first pipe of a dialing socket and then lingers; the reconnect time is far
+	//     shorter than that: a second connection must attach once the hook has returned
+	{
+		srv, _ := pull.NewSocket()
+		cli, _ := push.NewSocket()
+		_ = cli.SetOption(mangos.OptionReconnectTime, time.Millisecond)
+		_ = cli.SetOption(mangos.OptionMaxReconnectTime, time.Millisecond)
+		_ = cli.SetOption(mangos.OptionSendDeadline, 2*time.Second)
+		_ = srv.SetOption(mangos.OptionRecvDeadline, 2*time.Second)
+		var mu sync.Mutex
+		nAttaching, nAttached := 0, 0
+		cli.SetPipeEventHook(func(ev mangos.PipeEvent, p mangos.Pipe) {
+			switch ev {
+			case mangos.PipeEventAttaching:
+				mu.Lock()
+				nAttaching++
+				first := nAttaching == 1
+				mu.Unlock()
+				if first {
+					_ = p.Close()
+					time.Sleep(100 * time.Millisecond)
+				}
+			case mangos.PipeEventAttached:
+				mu.Lock()
+				nAttached++
+				mu.Unlock()
+			}
+		})
+		l, err := srv.NewListener(r4addr(tr), nil)
+		if err == nil && l.Listen() == nil {
+			_ = cli.SetOption(mangos.OptionDialAsynch, true)
+			_ = cli.Dial(l.Address())
+			ok := false
+			for i := 0; i < 300 && !ok; i++ {
+				time.Sleep(10 * time.Millisecond)
+				mu.Lock()
+				ok = nAttached > 0
+				mu.Unlock()
+			}
+			c.Class("hook-closes-in-attaching-and-lingers", true)
+			if !ok {
+				mu.Lock()
+				n := nAttaching
+				mu.Unlock()
+				c.Violate(fmt.Sprintf("dialer: the Attaching hook closed the first connection and returned 100 ms later (reconnect time 1 ms); no further connection was attached within 3 s (%d connection(s) reached the hook) — the dialer stopped redialling", n),
+					map[string]interface{}{"history": "PUSH dials a PULL listener over inproc; hook closes the first pipe during Attaching and sleeps 100 ms"})
+			} else if cli.Send([]byte("x")) != nil {
+				c.Violate("dialer: a connection attached after the hook had closed the first one, but nothing could be sent", nil)
+			}
+		}
+		go func() { _ = cli.Close(); _ = srv.Close() }()
+	}
+	// (b) the hook closes the pipe from inside its Attached callback
+	{
+		srv, _ := pull.NewSocket()
+		cli, _ := push.NewSocket()
+		_ = cli.SetOption(mangos.OptionReconnectTime, 10*time.Millisecond)
+		_ = cli.SetOption(mangos.OptionSendDeadline, time.Second)
+		_ = srv.SetOption(mangos.OptionRecvDeadline, time.Second)
+		var mu sync.Mutex
+		nAttached, nDetached := 0, 0
+		returned := make(chan struct{}, 4)
+		srv.SetPipeEventHook(func(ev mangos.PipeEvent, p mangos.Pipe) {
+			switch ev {
+			case mangos.PipeEventAttached:
+				mu.Lock()
+				nAttached++
+				first := nAttached == 1
+				mu.Unlock()
+				if first {
+					_ = p.Close()
+					returned <- struct{}{}
+				}
+			case mangos.PipeEventDetached:
+				mu.Lock()
+				nDetached++
+				mu.Unlock()
+			}
+		})
+		l, err := srv.NewListener(r4addr(tr), nil)
+		if err == nil && l.Listen() == nil {
+			_ = cli.SetOption(mangos.OptionDialAsynch, true)
+			_ = cli.Dial(l.Address())
+			c.Class("hook-closes-in-attached", true)
+			hung := false
+			select {
+			case <-returned:
+			case <-time.After(2 * time.Second):
+				hung = true
+			}
+			ok := false
+			for i := 0; i < 200 && !ok && !hung; i++ {
+				time.Sleep(10 * time.Millisecond)
+				mu.Lock()
+				ok = nAttached >= 2 && nDetached >= 1
+				mu.Unlock()
+			}
+			mu.Lock()
+			a, d := nAttached, nDetached
+			mu.Unlock()
+			if hung {
+				c.Violate("pipe hook: Pipe.Close called from inside the Attached callback did not return within 2 s (the callback is stuck; the pipe is never detached and nothing attaches after it)",
+					map[string]interface{}{"history": "PULL listens over inproc, PUSH dials; the listener's hook closes the first pipe inside its Attached callback"})
+			} else if !ok {
+				c.Violate(fmt.Sprintf("pipe hook: after the hook had closed the first pipe inside its Attached callback: %d Attached, %d Detached within 2 s (expected the Detached of that pipe and the next connection attached)", a, d), nil)
+			}
+		}
+		go func() { _ = cli.Close() }()
+		go func() { _ = srv.Close() }()
+	}
+}
+
+// C06, C11 — Unsubscribe against arriving traffic: once Unsubscribe has returned, the context has no subscription and no
+// queued message, so a Recv gets nothing — also when a matching message was on its way in at that very moment.
+func runSubUnsubscribeRace(c *Ctx) {
+	nctx, rounds := 150, 3
+	if c.Thorough() {
+		rounds = 12
+	}
+	tr := transportNamed("inproc")
+	pb, _ := pub.NewSocket()
+	sb, _ := sub.NewSocket()
+	l, err := pb.NewListener(r4addr(tr), nil)
+	if err != nil || l.Listen() != nil || sb.Dial(l.Address()) != nil {
+		_ = pb.Close()
+		_ = sb.Close()
+		return
+	}
+	time.Sleep(40 * time.Millisecond)
+	stop := make(chan struct{})
+	var pwg sync.WaitGroup
+	pwg.Add(1)
+	go func() {
+		defer pwg.Done()
+		for i := 0; ; i++ {
+			select {
+			case <-stop:
+				return
+			default:
+			}
+			_ = pb.Send([]byte{'t', byte(i >> 8), byte(i)})
+		}
+	}()
+	stale := 0
+	for r := 0; r < rounds && stale == 0; r++ {
+		var ctxs []mangos.Context
+		for i := 0; i < nctx; i++ {
+			cx, err := sb.OpenContext()
+			if err != nil {
+				break
+			}
+			_ = cx.SetOption(mangos.OptionRecvDeadline, 2*time.Millisecond)
+			_ = cx.SetOption(mangos.OptionSubscribe, []byte("t"))
+			ctxs = append(ctxs, cx)
+		}
+		time.Sleep(20 * time.Millisecond)
+		var wg sync.WaitGroup
+		var mu sync.Mutex
+		for _, cx := range ctxs {
+			wg.Add(1)
+			go func(cx mangos.Context) {
+				defer wg.Done()
+				if cx.SetOption(mangos.OptionUnsubscribe, []byte("t")) != nil {
+					return
+				}
+				// nothing is subscribed and the queue was pruned: whatever comes now is stale
+				for k := 0; k < 3; k++ {
+					if m, err := cx.RecvMsg(); err == nil {
+						m.Free()
+						mu.Lock()
+						stale++
+						mu.Unlock()
+					}
+				}
+			}(cx)
+		}
+		wg.Wait()
+		for _, cx := range ctxs {
+			_ = cx.Close()
+		}
+	}
+	close(stop)
+	pwg.Wait()
+	c.Class("sub-unsubscribe-race", true)
+	if stale > 0 {
+		c.Violate(fmt.Sprintf("SUB: %d message(s) were delivered by Recv on contexts whose only subscription had been removed (Unsubscribe had returned) while matching messages kept arriving", stale),
+			map[string]interface{}{"history": fmt.Sprintf("PUB floods topic t over inproc; %d SUB contexts subscribed to t unsubscribe concurrently and then Recv with a 2 ms deadline", nctx)})
+	}
+	_ = pb.Close()
+	_ = sb.Close()
+}
+
+// C19, C18 — a queue-length change while a Recv with a deadline is blocked does not postpone the deadline
+func runResizeKeepsDeadline(c *Ctx) {
+	type mk struct {
+		name string
+		new  func() (mangos.Socket, error)
+	}
+	for _, p := range []mk{{"pull", pull.NewSocket}, {"pair", pair.NewSocket}, {"bus", bus.NewSocket}, {"sub", sub.NewSocket}} {
+		s, err := p.new()
+		if err != nil {
+			continue
+		}
+		const dl = 200 * time.Millisecond
+		_ = s.SetOption(mangos.OptionRecvDeadline, dl)
+		done := make(chan error, 1)
+		t0 := time.Now()
+		go func() { _, e := s.Recv(); done <- e }()
+		stop := make(chan struct{})
+		go func() {
+			for n := 1; ; n++ {
+				select {
+				case <-stop:
+					return
+				case <-time.After(40 * time.Millisecond):
+					_ = s.SetOption(mangos.OptionReadQLen, 1+n%5)
+				}
+			}
+		}()
+		c.Class("resize-keeps-deadline "+p.name, true)
+		select {
+		case e := <-done:
+			el := time.Since(t0)
+			if e != mangos.ErrRecvTimeout || el < dl || el > dl+250*time.Millisecond {
+				c.Violate(fmt.Sprintf("%s: Recv with a %v deadline, READQ-LEN changed every 40 ms while it waited: returned %v after %v", p.name, dl, e, el.Round(time.Millisecond)),
+					map[string]interface{}{"protocol": p.name})
+			}
+		case <-time.After(dl + 1200*time.Millisecond):
+			c.Violate(fmt.Sprintf("%s: Recv with a %v deadline was still blocked after %v because READQ-LEN kept being changed (every 40 ms): each change postpones the deadline", p.name, dl, dl+1200*time.Millisecond),
+				map[string]interface{}{"protocol": p.name, "history": "Recv blocked with RECV-DEADLINE 200 ms; SetOption(READQ-LEN) every 40 ms"})
+		}
+		close(stop)
+		_ = s.Close()
+	}
+}
+
+// C11 — the same burst on several socket pairs at once, for many rounds (the window in which two senders both miss the
+// sleeping sender goroutine is a few instructions wide)
+func runPushBurstHeavy(c *Ctx) {
+	pairs, rounds := 6, 2500
+	if c.Thorough() {
+		rounds = 12000
+	}
+	tr := transportNamed("inproc")
+	var wgAll sync.WaitGroup
+	var mu sync.Mutex
+	bad := ""
+	for k := 0; k < pairs; k++ {
+		ps, _ := push.NewSocket()
+		pl, _ := pull.NewSocket()
+		_ = ps.SetOption(mangos.OptionSendDeadline, time.Second)
+		_ = pl.SetOption(mangos.OptionRecvDeadline, 400*time.Millisecond)
+		l, err := ps.NewListener(r4addr(tr), nil)
+		if err != nil || l.Listen() != nil || pl.Dial(l.Address()) != nil {
+			_ = ps.Close()
+			_ = pl.Close()
+			continue
+		}
+		wgAll.Add(1)
+		go func(k int, ps, pl mangos.Socket) {
+			defer wgAll.Done()
+			defer ps.Close()
+			defer pl.Close()
+			time.Sleep(30 * time.Millisecond)
+			const senders = 4
+			for r := 0; r < rounds; r++ {
+				mu.Lock()
+				stop := bad != ""
+				mu.Unlock()
+				if stop {
+					return
+				}
+				gate := make(chan struct{})
+				var wg sync.WaitGroup
+				for g := 0; g < senders; g++ {
+					wg.Add(1)
+					go func(g int) {
+						defer wg.Done()
+						<-gate
+						_ = ps.Send([]byte{byte(r >> 8), byte(r), byte(g)})
+					}(g)
+				}
+				close(gate)
+				wg.Wait()
+				got := 0
+				for got < senders {
+					if _, err := pl.Recv(); err != nil {
+						break
+					}
+					got++
+				}
+				if got != senders {
+					mu.Lock()
+					if bad == "" {
+						bad = fmt.Sprintf("pair %d, round %d: %d goroutines sent at the same instant on an idle PUSH socket; only %d of the %d accepted messages reached the connected, reading PULL peer within 0.4 s — the rest stayed in the send queue", k, r, senders, got, senders)
+					}
+					mu.Unlock()
+					return
+				}
+			}
+		}(k, ps, pl)
+	}
+	wgAll.Wait()
+	c.Class("push-burst-heavy", true)
+	if bad != "" {
+		c.Violate("push/pull (concurrent senders): "+bad, map[string]interface{}{"pairs": pairs, "senders": 4})
+	}
 }
